@@ -4,6 +4,8 @@ import (
 	"fmt"
 	"strings"
 
+	"github.com/cockroachdb/errors/errbase"
+
 	"verif/mc/core"
 	"verif/mc/tm"
 )
@@ -64,6 +66,19 @@ func runC12(c *core.Ctx, r *core.Result) {
 					}
 				}
 				e := t.Build()
+				// stack frames are safe information too: every frame (file:line)
+				// of every stack captured on the visible chain and its branches
+				var frames []string
+				for _, n := range tm.Nodes(e) {
+					if sp, ok := n.(errbase.StackTraceProvider); ok {
+						for _, fr := range sp.StackTrace() {
+							s := fmt.Sprintf("%+v", fr)
+							if i := strings.LastIndexByte(s, '\t'); i >= 0 {
+								frames = append(frames, s[i+1:])
+							}
+						}
+					}
+				}
 				for k := 0; k <= hops; k++ {
 					if k > 0 {
 						e, _ = tm.HopK(e)
@@ -72,6 +87,11 @@ func runC12(c *core.Ctx, r *core.Result) {
 					// comparison is modulo that escaping)
 					unmark := strings.NewReplacer("‹", "?", "›", "?")
 					out := unmark.Replace(retainedOutputs(e))
+					for _, fl := range frames {
+						if !strings.Contains(out, fl) {
+							return fail(fmt.Sprintf("frame-lost:hop%d", min(k, 2)), "the stack frame at %s, captured locally, is absent from the Sentry report and from GetAllSafeDetails after %d hop(s)", fl, k)
+						}
+					}
 					for _, si := range toks {
 						for _, line := range strings.Split(si.Value, "\n") {
 							want := line
